@@ -430,7 +430,7 @@ def make_two_iterations(cluster_every, npool, kmax, first_iter=3):
             c2 = ClustererDouble(None, kmax, script={"K": kmax, "by_point": by_point})
             if name == "labels-swap-on-refit":
                 # a refit may number the clusters differently: the same partition, labels exchanged at every second fit
-                c2.script["by_point"] = lambda x, c2=c2: int(float(np.asarray(x).ravel()[0]) > 0.5) ^ (1 if c2.n_fit % 2 == 0 else 0)
+                c2.script["by_point"] = lambda x, c2=c2: int(float(np.asarray(x).ravel()[0]) > 0.3) ^ (1 if c2.n_fit % 2 == 0 else 0)
             f2 = FitDouble(None, inf_dof=[False] * 16)
             try:
                 res = verdicts(c2, f2, lambda r_, j, a: min(len(a) - 1, int(m.get(f"ridx{r_}_{j}", len(a) - 1))))
